@@ -40,6 +40,8 @@ const (
 	fSplitReplies             // a backend read may end with the first bytes of the next reply
 	fWideBatches              // up to two events per descriptor while poller tasks are pending
 	fProbe                    // the topology probe (CLUSTER NODES) may be sent to a node at any point
+	fBatchReads               // one client read may carry two pipelined requests
+	fRemoveB                  // node B may be removed from the topology at any point (its slots unowned or taken over by A)
 )
 
 const verifTimeoutMs = 50
@@ -61,8 +63,22 @@ func verifKey(label string, tag byte, seq int) []byte {
 	return []byte{'{', tag, '}', byte('0' + seq), verifrt.Byte(label)}
 }
 
+func b2i(b bool) int {
+	if b {
+		return 1
+	}
+	return 0
+}
+
+func vItoa(n int) string {
+	if n < 10 {
+		return string(rune('0' + n))
+	}
+	return vItoa(n/10) + string(rune('0'+n%10))
+}
+
 func bulk(b []byte) []byte {
-	out := []byte("$" + string(rune('0'+len(b))) + "\r\n")
+	out := []byte("$" + vItoa(len(b)) + "\r\n")
 	out = append(out, b...)
 	return append(out, '\r', '\n')
 }
@@ -255,6 +271,7 @@ type vClient struct {
 	sent    int
 	hungUp  bool
 	touched []bool // request i went (partly) to a backend that was lost / timed out / unowned
+	mustTimeout []bool // request i was still waiting for a backend when the timeout expired
 }
 
 // HarnessWorld
@@ -294,7 +311,7 @@ func HarnessWorld(prop, m1, m2, steps, kinds, faults int) {
 		}
 		clients = append(clients, cl)
 	}
-	faulty := faults&(fClientHangup|fUnownedB|fDialFailB|fBackendLoss|fTimeout) != 0 // proxy-generated errors may occur
+	faulty := faults&(fClientHangup|fUnownedB|fDialFailB|fBackendLoss|fTimeout|fRemoveB) != 0 // proxy-generated errors may occur
 	var backs []*vBackend
 	// While poller tasks are pending, the real loop handles at most the rest of the current epoll
 	// batch and one more batch before it runs them: every descriptor gets at most `perFd` more events.
@@ -306,6 +323,7 @@ func HarnessWorld(prop, m1, m2, steps, kinds, faults int) {
 	timeouts := 0
 	probes := 0
 	backendLost := false
+	removed := false
 	lastEvent := -1
 	for s := 0; s < steps; s++ {
 		backs = syncBackends(w, backs)
@@ -342,18 +360,34 @@ func HarnessWorld(prop, m1, m2, steps, kinds, faults int) {
 		if faults&fProbe != 0 && probes < 1 {
 			enabled = append(enabled, ev{6, 0}, ev{6, 1})
 		}
+		if faults&fRemoveB != 0 && !removed {
+			enabled = append(enabled, ev{7, 0}, ev{7, 1})
+		}
 		if len(enabled) == 0 {
 			break
 		}
 		e := enabled[verifrt.Choice("event", len(enabled))]
 		lastEvent = e.kind
+		{
+			// trace line (shown by `gosym trace`): step, pending flag, enabled events, the chosen one
+			t := "step " + vItoa(s) + " pending=" + vItoa(b2i(pending)) + " enabled="
+			for _, x := range enabled {
+				t += vItoa(x.kind) + "." + vItoa(x.arg) + " "
+			}
+			verifrt.Note(t + "-> " + vItoa(e.kind) + "." + vItoa(e.arg))
+		}
 		evFd := -1
 		switch e.kind {
 		case 0:
 			cl := clients[e.arg]
 			evFd = cl.conn.Fd
-			w.Feed(cl.conn, cl.reqs[cl.sent].bytes)
+			data := cl.reqs[cl.sent].bytes
 			cl.sent++
+			if faults&fBatchReads != 0 && cl.sent < len(cl.reqs) && verifrt.Choice("two_requests_in_one_read", 2) == 1 {
+				data = append(append([]byte{}, data...), cl.reqs[cl.sent].bytes...)
+				cl.sent++
+			}
+			w.Feed(cl.conn, data)
 		case 1:
 			w.RunTasks()
 		case 2:
@@ -400,10 +434,34 @@ func HarnessWorld(prop, m1, m2, steps, kinds, faults int) {
 			w.HangUp(b.conn)
 		case 5:
 			timeouts++
+			// every request that is waiting for a backend now has been written to it (no task is
+			// pending), so its deadline is running: it is owed the timeout error
+			for _, cl := range clients {
+				if cl.hungUp || !cl.conn.Opened() {
+					continue
+				}
+				replies, _ := splitReplies(w.Sent(cl.conn))
+				cl.mustTimeout = make([]bool, len(cl.reqs))
+				for i, done := range cl.conn.QueueDone() {
+					if !done && len(replies)+i < len(cl.reqs) {
+						cl.mustTimeout[len(replies)+i] = true
+					}
+				}
+			}
 			verifrt.Sleep(verifTimeoutMs + 20)
 		case 6:
 			probes++
 			w.Probe([]string{"A:1", "B:1"}[e.arg])
+		case 7:
+			// a changed CLUSTER NODES reply was adopted: node B is gone; its slots are unowned (arg 0)
+			// or have been taken over by A (arg 1). The ticker closes B's pool and rebuilds the table.
+			removed = true
+			if e.arg == 0 {
+				w.Retopo([]string{"A:1"}, [][2]int{{0, 8191}})
+			} else {
+				w.Retopo([]string{"A:1"}, [][2]int{{0, 16383}})
+			}
+			w.Tick()
 		}
 		if !w.TasksPending() || !pending {
 			// tasks were drained, or this very event queued the first task: a new counting period
@@ -415,6 +473,21 @@ func HarnessWorld(prop, m1, m2, steps, kinds, faults int) {
 			w.Timeout() // the sweep runs at the end of every poller iteration
 		}
 		verifrt.Assert(!w.Shutdown, "proxy_keeps_running")
+		if prop == 16 && e.kind == 5 {
+			// C16: the sweep that follows the expiry answers every waiting request, with the timeout error
+			for _, cl := range clients {
+				if cl.hungUp || !cl.conn.Opened() {
+					continue
+				}
+				replies, rest := splitReplies(w.Sent(cl.conn))
+				verifrt.Assert(len(replies) == cl.sent && len(rest) == 0 && cl.conn.InMsgCount() == 0, "C16_every_waiting_request_is_answered_when_its_timeout_expires")
+				for j, r := range replies {
+					if cl.mustTimeout[j] {
+						verifrt.Assert(string(r) == "-ERR proxy request timeout\r\n", "C16_waiting_request_gets_the_timeout_error")
+					}
+				}
+			}
+		}
 
 		for _, cl := range clients {
 			if cl.hungUp {
@@ -520,6 +593,16 @@ func HarnessWorld(prop, m1, m2, steps, kinds, faults int) {
 						}
 					}
 					verifrt.Assert(nTimeout <= len(cl.reqs), "C16_at_most_one_timeout_error_per_request")
+					// a backend reply that arrived after the expiry was discarded: the timed-out
+					// positions still hold the timeout error, everything else its own reply
+					for j, r := range replies {
+						if cl.mustTimeout != nil && cl.mustTimeout[j] {
+							verifrt.Assert(string(r) == "-ERR proxy request timeout\r\n", "C16_late_reply_discarded")
+						} else {
+							want := cl.reqs[j].want
+							verifrt.Assert(len(r) == len(want) && isPrefix(r, want), "C16_other_requests_get_their_own_reply")
+						}
+					}
 				}
 			}
 		}
